@@ -107,10 +107,17 @@ def r2(ctx: Ctx) -> None:
             got = [key(strip_ver(e.args[0])) for e in ext]
             want = ([key(("sub", slot, NONE))] if none_in[0] else []) + ([key(("sub", slot, tt))] if tpol else [])
             lps = loops(p)
+            if any(e.term == l.iter and e.site.targets and any(isinstance(x, (ast.Yield, ast.YieldFrom)) for t_ in e.site.targets for x in ast.walk(t_.node)) for l in lps for e in calls(p, into_loops=False)):
+                ctx.unrec(tf, tf.node, f"{q}: hooks are drawn from a generator helper", "selection and filtering happen inside a generator function, which the path evaluator does not inline")
+                continue
             tgt_ok = len(lps) == 1 and all(e.recv == lps[0].iter for e in ext)
             ctx.check(got == want and tgt_ok, tf, tf.node, f"{q}: targets = hooks[None] ++ hooks[time] (buckets present: all-times={none_in[0]}, timed={tpol})", " ++ ".join(want) or "[]", " ++ ".join(got) or "[]")
             for l in lps:
                 el = ("sym", f"{l.target[0]}∈{l.loopid}")
+                gen_src = [e for e in calls(p, into_loops=False) if e.term == l.iter and e.site.targets and any(isinstance(x, (ast.Yield, ast.YieldFrom)) for t_ in e.site.targets for x in ast.walk(t_.node))]
+                if gen_src:
+                    ctx.unrec(tf, l.node, f"{q}: hooks are drawn from a generator helper", "selection and filtering happen inside a generator function, which the path evaluator does not inline")
+                    continue
                 for bp in l.paths:
                     hs = [e for e in calls(bp) if e.name.startswith("hooked_")]
                     filt = [(c, pol) for c, pol, _ in bp.conds if strip_ver(c)[0] == "call" and key(strip_ver(c)[1]) == "self._check_event_class_and_instance"]
@@ -289,12 +296,16 @@ def r4(ctx: Ctx) -> None:
 @rule("C13.R5", "every hook an event declares is registered once, for the event that declared it", "T4 + closure capture check", floor=3)
 def r5(ctx: Ctx) -> None:
     gs = ctx.func("SequentialRunner._generate_sessions")
-    regs = [n for n in gs.nested.values() if any(calls_target(e, "Simulator._add_event") for p in ctx.paths(n.qualname) for e in calls(p))]
+    # the callback is a closure of the generating function or a method of the runner
+    cands = list(gs.nested.values()) + [m for m in (gs.cls.methods.values() if gs.cls is not None else ()) if m is not gs]
+    regs = [n for n in cands if any(isinstance(x, ast.Call) and isinstance(x.func, ast.Attribute) and x.func.attr == "_add_event" for x in ast.walk(n.node))]
+    regs = [n for n in regs if any(calls_target(e, "Simulator._add_event") for p in ctx.paths(n.qualname) for e in calls(p))]
     ctx.require(len(regs) == 1, "_generate_sessions: the deferred hook-registration callback was not found")
     cb = regs[0]
-    if not cb.params:
+    own = [a for a in cb.params if not (cb.cls is not None and a == "self")]
+    if not own:
         ctx.violated(cb, cb.node, "the deferred callback receives its event as a parameter", "def callback(_event): ...", "callback without parameters (it can only see the event through its closure)")
-    pname = cb.params[0] if cb.params else "<event>"
+    pname = own[0] if own else "<event>"
     for p in normal_paths(ctx.paths(cb.qualname)):
         lps = loops(p)
         ok = len(lps) == 1 and lps[0].iter is not None and lps[0].iter[0] == "call" and lps[0].iter[1][0] == "attr" and lps[0].iter[1][2] == "hook_registration" and lps[0].iter[1][1] == ("sym", pname)
